@@ -212,3 +212,6 @@ def run(S):
     # to implement the one key order (shared with C18)
     from checks.C18 import rule_cmp
     rule_cmp(S)
+    # entries stay unique only if a writer acts on the entry (or absence) it re-validated under the lock (shared with C01)
+    from checks.C01 import rule_wul
+    rule_wul(S)
